@@ -2,7 +2,7 @@ import JominiModel.Proofs.TextTapeStable
 import JominiModel.Proofs.TextTapeScalars
 import JominiModel.Proofs.TextTapeTotal
 /-
-C19 (text tape), the tail behind the split point: helper lemmas for `C19_text_tape_tail_partial`
+C19 (text tape), the tail behind the split point: helper lemmas for `C19_text_tape_tail_sharp`
 (Proofs/TextTapeCut.lean).
 
 * pointwise stability: a token that is not the last one and not an open container (`NotOpen`)
@@ -731,5 +731,128 @@ theorem short_tail_sharp {n : Nat} {st : St} {d : Bytes} (hs : Short n st d) :
           exact stepAt_len_le hstep
       have hfl : flag st1.state ≤ 1 := by cases st1.state <;> simp [flag]
       omega
+
+/-! ### the pinned split point: the state after exactly `j` iterations -/
+
+/-- the state and cursor of the main loop after exactly `j` iterations, none of which ended the
+parse (a function of the input: nothing is chosen). -/
+def iter (n : Nat) : Nat → St → Bytes → Option (St × Bytes)
+  | 0, st, d => some (st, d)
+  | j + 1, st, d =>
+    match step n st d with
+    | .cont st' d' => iter n j st' d'
+    | .done _ => none
+
+theorem run_iter (n : Nat) : ∀ (j : Nat) (st : St) (d : Bytes) (st' : St) (d' : Bytes),
+    iter n j st d = some (st', d') → ∀ F, run n (F + j) st d = run n F st' d'
+  | 0, st, d, st', d', h, F => by
+    simp only [iter, Option.some.injEq, Prod.mk.injEq] at h
+    rw [h.1, h.2]; rfl
+  | j + 1, st, d, st', d', h, F => by
+    simp only [iter] at h
+    cases hstep : step n st d with
+    | done r => rw [hstep] at h; cases h
+    | cont st1 d1 =>
+      rw [hstep] at h
+      rw [show F + (j + 1) = (F + j) + 1 by omega, run_cont hstep]
+      exact run_iter n j st1 d1 st' d' h F
+
+/-- two runs from the same state that both end agree, whatever their fuel -/
+theorem run_det {n f1 f2 : Nat} {st : St} {d : Bytes} {r1 r2 : Res}
+    (h1 : run n f1 st d = r1) (hr1 : r1 ≠ .outOfFuel) (h2 : run n f2 st d = r2) (hr2 : r2 ≠ .outOfFuel) :
+    r1 = r2 := by
+  have a := run_more_fuel n f1 f2 st d r1 h1 hr1
+  have b := run_more_fuel n f2 f1 st d r2 h2 hr2
+  rw [Nat.add_comm] at b
+  rw [← a, ← b]
+
+/-- C19, run level with the split point pinned: the parse of a truncated input `dp` and the parse of
+any extension `dp ++ q` are in the SAME state (positions shifted by `|q|`) after the same number `j`
+of iterations, and from there the truncated parse has fewer than two bytes of lookahead left after
+its next iteration (or ends). -/
+theorem iter_lockstep (n1 n2 : Nat) (q : Bytes) : ∀ (fuel : Nat) (st : St) (dp : Bytes) (T' : List Tok) (b' : Bool),
+    run n1 fuel st dp = .ok T' b' → StInv st →
+    ∃ j st0 d0 fuel0, StInv st0 ∧ iter n1 j st dp = some (st0, d0) ∧
+      iter n2 j (st.shift q.length) (dp ++ q) = some (st0.shift q.length, d0 ++ q) ∧
+      Short n1 st0 d0 ∧ run n1 fuel0 st0 d0 = .ok T' b'
+  | 0, _, _, _, _, h, _ => by simp [run] at h
+  | fuel + 1, st, dp, T', b', h, hinv => by
+    cases hstep : step n1 st dp with
+    | done r =>
+      refine ⟨0, st, dp, fuel + 1, hinv, rfl, rfl, ?_, h⟩
+      intro st' d' hc
+      rw [hstep] at hc; cases hc
+    | cont st' d' =>
+    by_cases hd : d'.length < 2
+    · refine ⟨0, st, dp, fuel + 1, hinv, rfl, rfl, ?_, h⟩
+      intro st'' d'' hc
+      rw [hstep] at hc
+      simp only [Step.cont.injEq] at hc
+      rw [← hc.2]; exact hd
+    · have hd2 : 2 ≤ d'.length := by omega
+      have hrun : run n1 (fuel + 1) st dp = run n1 fuel st' d' := run_cont hstep
+      rw [hrun] at h
+      have hstep2 : step n2 (st.shift q.length) (dp ++ q) = .cont (st'.shift q.length) (d' ++ q) := by
+        simp only [step] at hstep ⊢
+        cases hsk : skipWs dp with
+        | none => simp [hsk] at hstep
+        | some x =>
+          simp only [hsk] at hstep
+          rw [skipWs_append q hsk]
+          obtain ⟨c, cs, rfl, _⟩ := skipWsAux_some dp false x hsk
+          simpa using stepAt_append (n2 := n2) q hstep hd2
+      have hinv' : StInv st' := by
+        simp only [step] at hstep
+        cases hsk : skipWs dp with
+        | none => simp [hsk] at hstep
+        | some x => simp only [hsk] at hstep; exact stepAt_inv hinv hstep
+      obtain ⟨j, st0, d0, fuel0, h1, h2, h3, h4, h5⟩ := iter_lockstep n1 n2 q fuel st' d' T' b' h hinv'
+      refine ⟨j + 1, st0, d0, fuel0, h1, ?_, ?_, h4, h5⟩
+      · simp only [iter, hstep]; exact h2
+      · simp only [iter, hstep2]; exact h3
+
+/-- a container token whose `end` slot is still 0: the open container of the top level -/
+def isOpenTop : Tok → Bool
+  | .array 0 _ => true
+  | .object 0 _ => true
+  | _ => false
+
+/-- the number of FINAL tokens of a loop state, as a function of the state: at the top level all but
+the last token, inside containers everything in front of the open top-level container. -/
+def frozenLen (st : St) : Nat :=
+  if st.parent = 0 then st.tape.length - 1 else st.tape.findIdx isOpenTop
+
+theorem frozen_frozenLen {st : St} (hinv : StInv st) (hne : st.tape ≠ []) : Frozen (frozenLen st) st := by
+  obtain ⟨f, hf, hf0, hf1⟩ := exists_frozen hinv hne
+  have hfl : frozenLen st = f := by
+    unfold frozenLen
+    by_cases hp : st.parent = 0
+    · rw [if_pos hp]; have := hf0 hp; omega
+    · rw [if_neg hp]
+      obtain ⟨mx, hm⟩ := hf1 hp
+      have hlt : f < st.tape.length := hf.1
+      rw [List.findIdx_eq hlt]
+      constructor
+      · rcases hm with hm | hm <;>
+        · rw [List.getElem?_eq_getElem hlt] at hm
+          simp only [Option.some.injEq] at hm
+          rw [hm]; rfl
+      · intro i hi
+        have hno := hf.2.1 i hi
+        have hil : i < st.tape.length := by omega
+        cases ht : st.tape[i] with
+        | array e m =>
+          have := hno e m (.inl (by rw [List.getElem?_eq_getElem hil, ht]))
+          cases e with
+          | zero => omega
+          | succ e => rfl
+        | object e m =>
+          have := hno e m (.inr (by rw [List.getElem?_eq_getElem hil, ht]))
+          cases e with
+          | zero => omega
+          | succ e => rfl
+        | _ => rfl
+  rw [hfl]; exact hf
+
 
 end Jomini.TextTape
